@@ -3,6 +3,7 @@ import Ypv.Props.C03Alias
 #print axioms Ypv.C03.set_step_eq_spec
 #print axioms Ypv.C03.set_eq_spec
 #print axioms Ypv.C03.set_ok_eq_spec
+#print axioms Ypv.C03.literal_text_kept
 #print axioms Ypv.C03.set_frame
 #print axioms Ypv.C03.set_keeps_anchors
 #print axioms Ypv.C03.set_preserves_anchorWF
